@@ -1,8 +1,8 @@
 (* Correspondence evaluation for the decode side (C05, C07; C04 and C12 reuse it). *)
 From Coq Require Import NArith ZArith Arith List Uint63 Bool.
 From Coq.Strings Require Import Byte.
-From LOF Require Export Corr.Common.
-From LOF Require Import Base.Bytes Base.Res Model.Wire Model.Parse.
+From LOF Require Export Corr.Common Model.Build.
+From LOF Require Import Base.Bytes Base.Res Model.Wire Model.Build Model.Parse Proofs.ParseRtAll6P Proofs.ParseRtAll7P.
 Import ListNotations.
 Open Scope N_scope.
 
@@ -15,6 +15,8 @@ Definition n_of (i : int) : N := Z.to_N (Uint63.to_Z i).
    whether the canonical field dump equals the one before encoding *)
 Inductive caseD :=
 | Par (input : list int) (outcome : int) (reenc : list int) (lenv cmp same : int)
+(* the same for a controller-side message, with the recipe of API calls that built it *)
+| ParM (xid : N) (m : mrec) (input : list int) (outcome : int) (reenc : list int) (lenv cmp same : int)
 (* a spec-conformant switch message: [known] names the finding whose signature the generator
    gave this frame (0 = none) *)
 | Sw (input : list int) (outcome : int) (reenc : list int) (lenv same known : int)
@@ -61,8 +63,24 @@ Definition is_d13 (d : list byte) : bool :=
   | _ => false
   end.
 
+(* where the general theorem (Properties/C05.v) applies it predicts the outcome: the bytes are
+   the model's encoding of the recipe, the parse succeeds and re-encodes to the same bytes *)
+Definition theorem_predicts (x : N) (m : mrec) (d re : list byte) (oc : N) : bool :=
+  negb (pmsg_ok m && (x <? 4294967296)) ||
+  (bytes_eqb (fst (marshal (build_m x m))) d && N.eqb oc 0 && bytes_eqb re d).
+
+Definition thm_hyp05 (c : caseD) : bool :=
+  match c with ParM x m _ _ _ _ _ _ => pmsg_ok m && (x <? 4294967296) | _ => false end.
+Definition count_hyp {C} (p : C -> bool) (cs : list (int * C)) : nat * nat :=
+  (List.length (filter (fun x => p (snd x)) cs), List.length cs).
+
 Definition check05 (c : caseD) : verdict :=
   match c with
+  | ParM x m input oc re lenv cmp same =>
+    let d := unpack input in
+    let agree := model_agrees d (n_of oc) (unpack re) (n_of lenv) true && theorem_predicts x m d (unpack re) (n_of oc) in
+    let accept := N.eqb (n_of oc) 0 && bytes_eqb (unpack re) d && N.eqb (n_of same) 1 && N.eqb (n_of lenv) (N.of_nat (length d)) in
+    if accept then mkv agree true else if agree && is_d13 d then VKnown 13 else mkv agree false
   | Par input oc re lenv cmp same =>
     let d := unpack input in
     let agree := model_agrees d (n_of oc) (unpack re) (n_of lenv) true in
